@@ -5,6 +5,7 @@
 #include <stdint.h>
 #include <stdlib.h>
 #include "atomic_bool.h"
+_Bool nondet_bool(void);
 struct Thread; struct Runnable;
 /* std::list<T*>: array-backed sequence of symbolic capacity; iterators are positions */
 struct ThreadList { struct Thread **items; size_t len; };
@@ -26,6 +27,8 @@ struct TP *g_tp;                  /* the pool whose mutexes the ghost lock state
 struct PThread *g_my_pthread;     /* the PooledThread a worker belongs to */
 _Bool g_workers_exist;            /* owner side: worker threads have been started and may run concurrently */
 size_t g_lcap;
+/* the stop flag, whatever its declared type (bool or std::atomic<bool>) */
+#define TP_FLAG(p) (*(_Bool *)&(p)->m_isRunning)
 size_t g_notifies, g_pred_evals;
 struct Runnable *g_wtask; size_t g_wtask_runs, g_wtask_deletes;
 struct Thread *g_wthread; size_t g_wthread_joins, g_wthread_deletes, g_starts;
